@@ -113,7 +113,9 @@ func goDesc(s *ast.SExpr) string {
 	return sb.String()
 }
 
-var c16Strs = []string{"", "a", "b", "ab", "a\x00", "\xff", "aa", "B", "é", "_0"}
+var c16Strs = []string{"", "a", "b", "ab", "a\x00", "\xff", "aa", "B", "é", "_0",
+	// digit runs: an order that reads them as numbers must still be ONE order
+	"_9", "_10", "_2", "_02", "_100000000000000000000000", "_18446744073709551615", "_18446744073709551616", "x9y", "x10y", "9", "10"}
 var c16Ints = []int64{0, 1, -1, 2, 42, math.MaxInt64, math.MinInt64, math.MaxInt64 - 1, math.MinInt64 + 1, -9876543210}
 var c16Floats = []float64{0, math.Copysign(0, -1), 1, -1, 0.5, -0.5, math.Inf(1), math.Inf(-1), math.MaxFloat64, -math.MaxFloat64, math.SmallestNonzeroFloat64, -math.SmallestNonzeroFloat64, 6.023e23, 1e-300}
 var c16Idx = []uint64{0, 1, 2, math.MaxUint64, math.MaxUint64 - 1, 1 << 63}
@@ -303,6 +305,36 @@ func runC16(cfg *Config) *Report {
 				rep.Notes = append(rep.Notes, fmt.Sprintf("floatKey self-test failed on %v %v", a, b))
 			}
 		}
+	}
+	// directed, oracle only: very long and very deep terms that differ only at the far end (no recursion-depth or length cut-off
+	// may turn "differs" into "equal")
+	if cfg.Only < 0 {
+		long := func(n int, last int64) *ast.SExpr {
+			var t *ast.SExpr
+			t = ast.Cons(ast.NewInt(last), nil)
+			for k := 0; k < n; k++ {
+				t = ast.Cons(ast.NewInt(0), t)
+			}
+			return t
+		}
+		deep := func(n int, z string) *ast.SExpr {
+			t := ast.NewSymbol(z)
+			for k := 0; k < n; k++ {
+				t = ast.Cons(t, nil)
+			}
+			return t
+		}
+		for _, n := range []int{12000, 40000} {
+			for _, pair := range [][2]*ast.SExpr{{long(n, 1), long(n, 2)}, {deep(n, "z"), deep(n, "y")}} {
+				a, b := pair[0], pair[1]
+				cab, cba := a.Compare(b), b.Compare(a)
+				if cab == 0 || cba == 0 || sign(cab) != -sign(cba) || a.Equal(b) {
+					rep.violate(-1, "zero-iff-Equal", fmt.Sprintf("two terms of %d cons steps that differ only at the far end", n),
+						fmt.Sprintf("a.Compare(b)=%d b.Compare(a)=%d a.Equal(b)=%v", cab, cba, a.Equal(b)))
+				}
+			}
+		}
+		rep.hist("directed: long and deep terms (12000 and 40000 cons steps)")
 	}
 	for i := 0; i < cfg.N; i++ {
 		exotic := r.Intn(3) == 0
